@@ -311,6 +311,17 @@ def _min_point(rc: RuleCtx):
                 if fn == "t.sort" or (call.args and ast.unparse(call.args[0]) == "t"):
                     desc = True
     it_ok = isinstance(loop, ast.For) and isinstance(loop.iter, ast.Name) and loop.iter.id == "t"
+    if not (desc and it_ok) and isinstance(loop, ast.For):
+        # by value: the loop visits sorted(t, reverse=True), whatever name holds it
+        try:
+            itv = fr.expr(loop.iter, env)
+        except Unsupported:
+            itv = None
+        a_ = single_atom(itv) if isinstance(itv, Rat) else None
+        if a_ is not None and a_.name == "py.sorted" and a_.args and a_.args[0].equals(tsym) and tuple(a_.extra or ()) == ("reverse",) and len(a_.args) == 2:
+            b_ = ev.bool_registry.get(a_.args[1].atoms()[0].extra) if a_.args[1].atoms() else None
+            if b_ is not None and b_.kind == "true":
+                desc = it_ok = True
     if desc and it_ok:
         res.ok("G5", f"{fi.qualname}:order", "thresholds are visited in descending order")
     else:
